@@ -14,11 +14,14 @@ Import ListNotations.
 (* ---------- files ---------- *)
 Inductive role :=
 | Ident | ModelInfo | Graph | SearchJson | ModelJson | Metadata | Log
-| StartTime | Time | Dill | DillTmp | Summary | SamplesInfo | SamplesCsv | Results | SearchSummary | Marker.
+| StartTime | Time | Dill | DillTmp | Summary | SamplesInfo | SamplesCsv | Results | SearchSummary | Marker
+| SearchJsonTmp | ModelJsonTmp | SummaryTmp | SamplesInfoTmp
+| Attr | AttrTmp | ResultExtra | ResultExtraTmp.   (* what Analysis.save_attributes / save_results write (user files) *)
 
 Definition all_roles : list role :=
   [Ident; ModelInfo; Graph; SearchJson; ModelJson; Metadata; Log; StartTime; Time; Dill; DillTmp;
-   Summary; SamplesInfo; SamplesCsv; Results; SearchSummary; Marker].
+   Summary; SamplesInfo; SamplesCsv; Results; SearchSummary; Marker;
+   SearchJsonTmp; ModelJsonTmp; SummaryTmp; SamplesInfoTmp; Attr; AttrTmp; ResultExtra; ResultExtraTmp].
 
 Definition role_eqb (a b : role) : bool :=
   match a, b with
@@ -26,7 +29,9 @@ Definition role_eqb (a b : role) : bool :=
   | ModelJson, ModelJson | Metadata, Metadata | Log, Log | StartTime, StartTime
   | Time, Time | Dill, Dill | DillTmp, DillTmp | Summary, Summary | SamplesInfo, SamplesInfo
   | SamplesCsv, SamplesCsv | Results, Results | SearchSummary, SearchSummary
-  | Marker, Marker => true
+  | Marker, Marker | SearchJsonTmp, SearchJsonTmp | ModelJsonTmp, ModelJsonTmp
+  | SummaryTmp, SummaryTmp | SamplesInfoTmp, SamplesInfoTmp
+  | Attr, Attr | AttrTmp, AttrTmp | ResultExtra, ResultExtra | ResultExtraTmp, ResultExtraTmp => true
   | _, _ => false
   end.
 
@@ -62,15 +67,25 @@ Inductive op :=
 | ORZ                          (* os.remove(zip) *)
 | OZTW                         (* repaired code: archive written to <zip>.tmp *)
 | OZMV                         (* repaired code: os.replace(<zip>.tmp, zip) *)
+| OJMV (r : role) (f : fstate) (* repaired code: os.replace(<name>.json.tmp, <name>.json) in save_json *)
 | ODMV (f : fstate).           (* repaired code: os.replace(search_internal.dill.tmp, search_internal.dill);
                                   f = what the temporary file holds (it was just written completely) *)
 
-Inductive event := EW (r : role) | EA (r : role) | ER (r : role) | EZW | ERZ | EZTW | EZMV | EDMV.
+Inductive event := EW (r : role) | EA (r : role) | ER (r : role) | EZW | ERZ | EZTW | EZMV | EDMV | EJMV (r : role).
 
 Definition event_of (o : op) : event :=
   match o with
   | OW r _ => EW r | OA r => EA r | OR r => ER r
-  | OZW => EZW | ORZ => ERZ | OZTW => EZTW | OZMV => EZMV | ODMV _ => EDMV
+  | OZW => EZW | ORZ => ERZ | OZTW => EZTW | OZMV => EZMV | ODMV _ => EDMV | OJMV r _ => EJMV r
+  end.
+
+(* the temporary name save_json writes before renaming *)
+Definition jtmp (r : role) : role :=
+  match r with
+  | SearchJson => SearchJsonTmp | ModelJson => ModelJsonTmp
+  | Summary => SummaryTmp | SamplesInfo => SamplesInfoTmp
+  | Attr => AttrTmp | ResultExtra => ResultExtraTmp
+  | _ => DillTmp
   end.
 
 Definition apply (o : op) (s : fs) : fs :=
@@ -83,6 +98,7 @@ Definition apply (o : op) (s : fs) : fs :=
   | OZTW => mkfs (fd s) (fz s) true
   | OZMV => mkfs (fd s) (ZFull (fd s)) false
   | ODMV f => mkfs (upd (upd (fd s) Dill f) DillTmp Absent) (fz s) (ftmp s)
+  | OJMV r f => mkfs (upd (upd (fd s) r f) (jtmp r) Absent) (fz s) (ftmp s)
   end.
 
 Definition exec (l : list op) (s : fs) : fs := fold_left (fun s o => apply o s) l s.
@@ -97,7 +113,7 @@ Definition apply_empty (o : op) (s : fs) : fs :=
             end
   | OZW => mkfs (fd s) ZPartial (ftmp s)
   | OZTW => mkfs (fd s) (fz s) true
-  | OR _ | ORZ | OZMV | ODMV _ => s
+  | OR _ | ORZ | OZMV | ODMV _ | OJMV _ _ => s
   end.
 
 (* operation o was the last one and the process died before its content was completely on disk *)
@@ -105,7 +121,7 @@ Definition cut (o : op) (s : fs) : fs :=
   match o with
   | OW r _ | OA r => if empty_content r then s else mkfs (upd (fd s) r (Part PHalf)) (fz s) (ftmp s)
   | OZW => mkfs (fd s) ZPartial (ftmp s)
-  | OZTW | OR _ | ORZ | OZMV | ODMV _ => s
+  | OZTW | OR _ | ORZ | OZMV | ODMV _ | OJMV _ _ => s
   end.
 
 Definition writes (o : op) : bool :=
@@ -154,12 +170,13 @@ Record code := mkcode {
   fx_resume : bool;     (* BFGS resume reads .x/.nit and starts afresh on an unreadable state *)
   fx_timer : bool;      (* Timer.start rewrites an unreadable .start_time; Timer.time ignores an unreadable .time *)
   fx_dill : bool;       (* save_search_internal writes search_internal.dill.tmp then os.replace *)
-  fx_chk : bool         (* Fitness.check_log_likelihood ignores an unreadable summary and compares likelihood with likelihood *)
+  fx_chk : bool;        (* Fitness.check_log_likelihood ignores an unreadable summary and compares likelihood with likelihood *)
+  fx_json : bool        (* DirectoryPaths.save_json writes <name>.json.tmp then os.replace *)
 }.
-Definition current : code := mkcode false false false false false.
-Definition repaired : code := mkcode true true true true true.
+Definition current : code := mkcode false false false false false false.
+Definition repaired : code := mkcode true true true true true true.
 
-Inductive exc := BadZip | KeyErr | EOFErr | Unpickling | ValueErr | JSONDecode | FileNotFound | SearchExc | OtherExc.
+Inductive exc := BadZip | KeyErr | EOFErr | Unpickling | ValueErr | JSONDecode | FileNotFound | SearchExc | UnboundLocal | OtherExc.
 Record result := mkres { r_tag : nat; r_samples : option nat; r_internal : bool }.
 
 (* ---------- the phases of NonLinearSearch.fit ---------- *)
@@ -174,26 +191,35 @@ Definition restore_ops (h : list event) (s : fs) : list op * option exc :=
       (a ++ extract_ops snap (skipn (length a) h) ++ [ORZ], None)
   end.
 
-(* DirectoryPaths.save_all *)
-Definition save_all_ops : list op :=
-  [OW Ident (Full Plain); OW ModelInfo (Full Plain); OW Graph (Full Plain);
-   OW SearchJson (Full Plain); OW ModelJson (Full Plain); OA Metadata].
+(* DirectoryPaths.save_json *)
+Definition json_write (cd : code) (r : role) (f : fstate) : list op :=
+  if fx_json cd then [OW (jtmp r) f; OJMV r f] else [OW r f].
+
+(* DirectoryPaths.save_all, then Analysis.save_attributes (the harness analysis saves one json) *)
+Definition save_all_ops (cd : code) : list op :=
+  [OW Ident (Full Plain); OW ModelInfo (Full Plain); OW Graph (Full Plain)]
+  ++ json_write cd SearchJson (Full Plain) ++ json_write cd ModelJson (Full Plain) ++ [OA Metadata]
+  ++ json_write cd Attr (Full Plain).
 
 Definition is_complete (s : fs) : bool := present (fd s) Marker.
 
-Definition pre_ops (s : fs) : list op := if is_complete s then [] else save_all_ops.
+Definition pre_ops (cd : code) (s : fs) : list op := if is_complete s then [] else save_all_ops cd.
 
 (* NonLinearSearch.perform_update: timer.update, samples summary, samples table, model.results, search.summary *)
-Definition update_ops (c : cfg) (g : nat) : list op :=
-  [OW Time (Full Plain); OW Summary (Full (Gen g))]
-  ++ (if c_csv c then [OW SamplesInfo (Full Plain); OW SamplesCsv (Full (Gen g))] else [])
+Definition update_ops (cd : code) (c : cfg) (g : nat) : list op :=
+  [OW Time (Full Plain)] ++ json_write cd Summary (Full (Gen g))
+  ++ (if c_csv c then json_write cd SamplesInfo (Full Plain) ++ [OW SamplesCsv (Full (Gen g))] else [])
   ++ [OW Results (Full Plain); OW SearchSummary (Full Plain)].
 
 (* the same, when writing search.summary fails (float("") on the run time) *)
-Definition update_ops_failing (c : cfg) (g : nat) : list op :=
-  [OW Time (Full Plain); OW Summary (Full (Gen g))]
-  ++ (if c_csv c then [OW SamplesInfo (Full Plain); OW SamplesCsv (Full (Gen g))] else [])
+Definition update_ops_failing (cd : code) (c : cfg) (g : nat) : list op :=
+  [OW Time (Full Plain)] ++ json_write cd Summary (Full (Gen g))
+  ++ (if c_csv c then json_write cd SamplesInfo (Full Plain) ++ [OW SamplesCsv (Full (Gen g))] else [])
   ++ [OW Results (Full Plain)].
+
+(* the final update followed by Analysis.save_results (the harness analysis saves one json holding the best likelihood) *)
+Definition final_ops (cd : code) (c : cfg) (g : nat) : list op :=
+  update_ops cd c g ++ json_write cd ResultExtra (Full (Gen g)).
 
 Fixpoint repeat_ops (n : nat) (l : list op) : list op :=
   match n with O => [] | S n' => l ++ repeat_ops n' l end.
@@ -230,11 +256,15 @@ Definition chk_ops (cd : code) (c : cfg) (s : fs) : option exc * bool :=
 (* the search's _fit: (ops, exception | generation of the final internal state, likelihood evaluated?, returns an internal state?) *)
 Definition search_ops (cd : code) (c : cfg) (tag : nat) (s : fs)
   : list op * (exc + nat) * bool * bool :=
-  let loop := dill_write cd (Full (Gen tag)) ++ update_ops c tag in
+  let loop := dill_write cd (Full (Gen tag)) ++ update_ops cd c tag in
   match c_search c with
   | Drawer => (dill_write cd (Full (Gen tag)), inr tag, true, false)
   | LBFGS =>
-      let fresh := (repeat_ops (c_updates c) loop, inr tag, true, true) in
+      (* maxiter = 0: the while loop is never entered and `return search_internal` raises UnboundLocalError *)
+      let fresh := match c_updates c with
+                   | O => ([], inl UnboundLocal, true, true)
+                   | S _ => (repeat_ops (c_updates c) loop, inr tag, true, true)
+                   end in
       match fd s Dill with
       | Absent => fresh
       | Full NoneObj => fresh                                  (* None["x0"]: TypeError, caught *)
@@ -279,8 +309,8 @@ Definition fresh_ops (cd : code) (c : cfg) (tag : nat) (s : fs)
       | inl e => (OA Log :: t ++ f, inl e, sampled)
       | inr g =>
           if drawer_time_bad cd c s
-          then (OA Log :: t ++ f ++ update_ops_failing c g, inl ValueErr, sampled)
-          else (OA Log :: t ++ f ++ update_ops c g ++ [OW Marker (Full Plain)],
+          then (OA Log :: t ++ f ++ update_ops_failing cd c g, inl ValueErr, sampled)
+          else (OA Log :: t ++ f ++ final_ops cd c g ++ [OW Marker (Full Plain)],
                 inr (mkres g (Some g) internal), sampled)
       end
   end.
@@ -340,7 +370,7 @@ Definition plan (cd : code) (c : cfg) (tag : nat) (h : list event) (s : fs)
   | Some e => (r, inl e, false)
   | None =>
       let s1 := exec r s in
-      let p := pre_ops s1 in
+      let p := pre_ops cd s1 in
       let s2 := exec p s1 in
       let '(m, mo, sampled) := main_ops cd c tag s2 in
       match mo with
@@ -418,7 +448,7 @@ Fixpoint history cd c (tag : nat) (runs : list (list event * option (nat * varia
 (* the folder holds the complete result of generation g *)
 Definition complete (c : cfg) (g : nat) (d : dir) : Prop :=
   d Marker = Full Plain /\ d Summary = Full (Gen g) /\
-  d Results = Full Plain /\ d SearchSummary = Full Plain /\
+  d Results = Full Plain /\ d SearchSummary = Full Plain /\ d ResultExtra = Full (Gen g) /\
   (if c_csv c then d SamplesCsv = Full (Gen g) /\ d SamplesInfo = Full Plain
    else d SamplesCsv = Absent).
 
@@ -460,6 +490,7 @@ Definition fs_eqb (a b : fs) : bool :=
 Definition completeb (c : cfg) (g : nat) (d : dir) : bool :=
   fstate_eqb (d Marker) (Full Plain) && fstate_eqb (d Summary) (Full (Gen g)) &&
   fstate_eqb (d Results) (Full Plain) && fstate_eqb (d SearchSummary) (Full Plain) &&
+  fstate_eqb (d ResultExtra) (Full (Gen g)) &&
   (if c_csv c then fstate_eqb (d SamplesCsv) (Full (Gen g)) && fstate_eqb (d SamplesInfo) (Full Plain)
    else fstate_eqb (d SamplesCsv) Absent).
 Definition storedb (c : cfg) (g : nat) (s : fs) : bool :=
@@ -469,6 +500,7 @@ Definition event_eqb (a b : event) : bool :=
   match a, b with
   | EW x, EW y | EA x, EA y | ER x, ER y => role_eqb x y
   | EZW, EZW | ERZ, ERZ | EZTW, EZTW | EZMV, EZMV | EDMV, EDMV => true
+  | EJMV x, EJMV y => role_eqb x y
   | _, _ => false
   end.
 Fixpoint list_eqb {A} (eqb : A -> A -> bool) (a b : list A) : bool :=
@@ -480,7 +512,7 @@ Fixpoint list_eqb {A} (eqb : A -> A -> bool) (a b : list A) : bool :=
 Definition exc_eqb (a b : exc) : bool :=
   match a, b with
   | BadZip, BadZip | KeyErr, KeyErr | EOFErr, EOFErr | Unpickling, Unpickling | ValueErr, ValueErr
-  | JSONDecode, JSONDecode | FileNotFound, FileNotFound | SearchExc, SearchExc | OtherExc, OtherExc => true
+  | JSONDecode, JSONDecode | FileNotFound, FileNotFound | SearchExc, SearchExc | UnboundLocal, UnboundLocal | OtherExc, OtherExc => true
   | _, _ => false
   end.
 Definition optnat_eqb (a b : option nat) : bool :=
